@@ -22,6 +22,12 @@ CHECKS = {
  "C05": (EX, "DESIGN.md §3 C05", "runtime monitoring: response Update lists vs reference per-target field model",
          "Update lists of create/update/stop responses from the real adaptation are checked for one entry per target with exactly the owners' fields, own entry last, self-update failing, dropped ignore-failure updates leaking nothing.",
          "Flag value of a combined entry and blank entries for targets whose only updates were dropped are not asserted (unstated)."),
+ "C10": (EX, "DESIGN.md §3 C10", "runtime monitoring: stream parser + real-time-order monitor over recorded write/read histories of two real Mux endpoints, porcupine FIFO check on short histories, race detector, hook-widened interleavings",
+         "Concurrent writers and readers over K logical connections of two real multiplexer endpoints (socketpair and net.Pipe trunks, queue lengths 2-256, payloads from empty to several frames); each delivered stream is parsed for completeness, order, integrity and isolation; harness-side credit enforces 'receiver keeps up'.",
+         "Readers pass a buffer of one full frame; connection ids are opened on both ends before traffic."),
+ "C11": (FE, "DESIGN.md §3 C11", "runtime monitoring with fault injection: harness-owned cut-wrapper at every enumerated trunk byte offset, close/overflow schedules, prefix parser and hang rule with goroutine dumps, race detector",
+         "Fault points are enumerated for a fixed exchange (every byte offset in the thorough tier, all frame boundaries plus a stride in quick) and sampled for close timing/closer counts/overflow positions; oracles: prefix property, every blocked/later operation errors, EOF after orderly close, closers return.",
+         "Completeness is not asserted for a close racing unread data; overflow is exercised on the buffering socketpair trunk only."),
  "C12": (EX, "DESIGN.md §3 C12", "runtime monitoring: descriptor-driven differential execution of the two generated codecs (cross-decode, round trips, size, presence)",
          "Every message type with the specialised codec (found through the registry at run time) is populated field by field and at random; both encoders' bytes are decoded by the other decoder and compared with proto.Equal plus an explicit presence walk; SizeVT is compared with the bytes written.",
          "Valid UTF-8 strings and non-nil repeated/map message values only; the wasm call path itself cannot be driven here, the codec pair is executed natively."),
